@@ -14,6 +14,12 @@ func init() {
 func genC09(seed uint64, tier string) *Plan {
 	r := NewRng(seed, 9)
 	u := genUniverse(r)
+	for i := range u.Dims {
+		if u.Dims[i].Name == "dd" {
+			// integers that float64 cannot tell apart
+			u.Dims[i].Domain = append(u.Dims[i].Domain, IntV(9007199254740993), IntV(9007199254740992), IntV(1<<60+1), IntV(1<<60+2), IntV(-(1<<60)-1))
+		}
+	}
 	p := &Plan{Prop: "C09", Seed: seed, World: "S"}
 	p.Cfg.CoalesceNanos = int64(time.Millisecond)
 	span := int64(PickOne(r, []time.Duration{6 * time.Second, 40 * time.Second, 3 * time.Minute}))
